@@ -92,9 +92,24 @@ def shape_pre(k, a, b, min_gap=1):
     return pre
 
 
-def pos_commute(k, a, b, strand):
+def _adopt_into_gene(tx, ex, strand, first):
+    """the transcript as one of two isoforms of a gene whose aggregates (merged transcript / CDS / feature, primary transcript) are computed before the
+    transcript is asked anything: aggregating must not touch the members"""
+    from inscripta.biocantor.gene.gene import GeneInterval
+
+    other = TranscriptInterval([ex[0][0] + 1], [ex[-1][1] + 5], strand, guid=22)
+    gene = GeneInterval([tx, other] if first else [other, tx], guid=23)
+    gene.get_merged_transcript()
+    gene.get_merged_cds()
+    gene.get_primary_transcript()
+    return gene
+
+
+def pos_commute(k, a, b, strand, in_gene=None):
     def fn(**kw):
         ex, cds, tx = build(k, a, b, strand, kw)
+        if in_gene is not None:
+            _adopt_into_gene(tx, ex, strand, in_gene)
         p = kw["p"]
         in_tx, in_cds = member(p, ex), member(p, cds)
         conds = []
@@ -287,6 +302,13 @@ def obligations(tier):
                                    budget=cost * 8 + 60, cost=cost,
                                    desc="chr->CDS == chr->tx->CDS; every conversion inverted by its counterpart; positions outside rejected; aa == cds//3",
                                    bounds=bnd, examples=[_example(k, a, b, p=13), _example(k, a, b, p=0)]))
+                    if k == 2 and mg == 1:
+                        for first in (True, False):
+                            out.append(Obl("pos_commute_in_gene_%s_%s" % (tg, "first" if first else "second"), pos_commute(k, a, b, strand, in_gene=first),
+                                           dict(base, p=int), pre, budget=cost * 8 + 120, cost=cost * 1.5,
+                                           desc="the same conversions on a transcript that is the %s of two isoforms of a gene, after the gene's merged transcript / "
+                                                "merged CDS / primary transcript were computed (aggregates must leave their members alone)" % ("first" if first else "second"),
+                                           bounds=bnd, examples=[_example(k, a, b, p=13), _example(k, a, b, p=0)]))
                     out.append(Obl("rel_commute_" + tg, rel_commute(k, a, b, strand), dict(base, r=int, c=int), pre,
                                    budget=cost * 10 + 60, cost=cost * 1.5,
                                    desc="transcript/CDS relative positions map to the block walk and back; out-of-range indexes rejected",
